@@ -74,6 +74,7 @@ Section ReaderMap.
     unfold reader. change (mapb ((t0, e0) :: r)) with ((t0, f e0) :: mapb r).
     rewrite <- (in_range_map ((t0, e0) :: r) time).
     change (mapb ((t0, e0) :: r)) with ((t0, f e0) :: mapb r).
+    destruct (is_static k) eqn:Hst; [reflexivity|].
     destruct (negb (in_range ((t0, f e0) :: mapb r) time)); [reflexivity|].
     change ((t0, f e0) :: mapb r) with (mapb ((t0, e0) :: r)).
     destruct k.
@@ -95,6 +96,7 @@ Section ReaderMap.
       destruct prev as [pv|]; [|reflexivity].
       simpl option_map. simpl map. do 2 f_equal.
       apply (integ_loop_map pv time t0 (x :: r')).
+    - discriminate.
   Qed.
 End ReaderMap.
 
@@ -324,6 +326,46 @@ Section P.
     created (lg ++ [Created (d, i, n)]) = map (fun k => (d, i, k)) (seq 0 (S n)).
   Proof. intros H. rewrite created_app, H, seq_S, map_app. reflexivity. Qed.
 
+  (** ** static outputs: one publication, refused again wherever the first one lives *)
+  Lemma static_refusal (c : config) (s : state) t p size :
+    c_kind c = KStatic -> s_buf s <> [] -> push save c s t p size = s.
+  Proof.
+    intros Hk Hb. unfold push, refused. rewrite Hk. destruct (s_buf s); [contradiction|reflexivity].
+  Qed.
+
+  Lemma static_first_accepted (c : config) (s : state) t p size :
+    c_kind c = KStatic -> s_buf s = [] ->
+    exists e, s_buf (push save c s t p size) = [(t, e)]
+              /\ is_spilled e = spills (c_limit c) (s_total s) size.
+  Proof.
+    intros Hk Hb. unfold push, refused. rewrite Hk, Hb. simpl. unfold push_accept, pack.
+    destruct (spills (c_limit c) (s_total s) size); simpl; rewrite Hb; eexists; split; reflexivity.
+  Qed.
+
+  Lemma static_step_single (c : config) (s : state) (o : op) :
+    c_kind c = KStatic -> (length (s_buf s) <= 1)%nat ->
+    (length (s_buf (fst (step c s o))) <= 1)%nat.
+  Proof.
+    intros Hk Hl. destruct o as [t p size|key t| |g]; simpl.
+    - destruct (s_buf s) as [|x r] eqn:Hb.
+      + destruct (static_first_accepted c s t p size Hk Hb) as (e & -> & _). simpl. lia.
+      + rewrite static_refusal; [rewrite Hb; exact Hl|exact Hk|rewrite Hb; discriminate].
+    - unfold pull. destruct (reader (c_kind c) (s_buf s) (s_prev s) t); [|exact Hl].
+      unfold threshold. rewrite Hk. simpl. exact Hl.
+    - unfold finalize. destruct (finalize_files _ _ _). simpl. lia.
+    - exact Hl.
+  Qed.
+
+  Theorem static_single (c : config) keys fs0 (ops : list op) :
+    c_kind c = KStatic -> (length (s_buf (final c (init keys fs0) ops)) <= 1)%nat.
+  Proof.
+    intros Hk.
+    assert (forall s, (length (s_buf s) <= 1)%nat -> (length (s_buf (final c s ops)) <= 1)%nat) as H.
+    { induction ops as [|o r IH]; intros s Hl; simpl; [exact Hl|].
+      apply IH. apply static_step_single; assumption. }
+    apply H. simpl. lia.
+  Qed.
+
   Section Sim.
     Variable c : config.
     Let d := c_dir c.
@@ -461,7 +503,13 @@ Section P.
       intros (m & Hmb & Hown & Hn & Hconn & Hprev & Hcr & Hrm).
       destruct o as [t p size|key t| |g].
       - (* Push *)
-        simpl. unfold push, pack. simpl.
+        simpl. unfold push.
+        replace (c_kind cu) with (c_kind c) by reflexivity.
+        assert (refused (c_kind c) (s_buf s) = refused (c_kind c) (s_buf u)) as Hrf
+            by (unfold refused; destruct Hmb; reflexivity).
+        rewrite <- Hrf. destruct (refused (c_kind c) (s_buf s)).
+        { repeat split; auto. exists m. repeat split; auto. }
+        unfold push_accept, pack. simpl.
         replace (c_kind cu) with (c_kind c) by reflexivity.
         destruct (spills (c_limit c) (s_total s) size) eqn:Hsp; simpl.
         + repeat split; auto.
